@@ -43,14 +43,19 @@ META = {
     "level_note": "The model shares only the documented rules with the implementation; operand lists come from the generated AST, never from "
                   "operator attributes. Not driven: program capture (capture.enabled()), multi-threaded recording (the global RLock), the "
                   "repository doctests under M-QSTACK (planned thorough-tier extra in DESIGN.md; no pytest plugin exists in the harness), "
-                  "template/decomposition-internal queuing beyond the small ambient QNode workload. Eager (lazy=False) wrappers are only "
+                  "template/decomposition-internal queuing beyond the small ambient QNode workload. Eager / flattening constructors (lazy=False forms, the "
+                  "dunders @ + * and unary minus, qp.ctrl which merges nested Controlled operators, and the bodies of ctrl(fn)) are only "
                   "given freshly created operands, because for re-used operands the statement does not say which of the flattened "
-                  "constituents leave the queue.",
+                  "constituents leave the queue; qp.apply(wrapper) is skipped while one of the wrapper's own operands sits in the target "
+                  "queue (classes differ in how deep they copy; counter apply_skipped_operand_in_queue). Known and deliberately outside "
+                  "the statement's quantifier (programs, not schedules): QueuingManager.stop_recording() swaps the global stack without "
+                  "taking AnnotatedQueue's lock, so a stop_recording in ANOTHER thread makes a recording queue lose operators / raise "
+                  "IndexError in __exit__ and leaves the class-level RLock held.",
     "design_ref": "7/C41",
     "shards": {"quick": 4, "thorough": 16},
     "budget_s": {"quick": 60, "thorough": 420},
-    "min_evals": {"quick": 3000, "thorough": 100000},
-    "min_nontrivial": {"quick": 300, "thorough": 5000},
+    "min_evals": {"quick": 20000, "thorough": 100000},
+    "min_nontrivial": {"quick": 1000, "thorough": 5000},
     "deciding": ["queue.model", "queue.from_queue", "queue.apply", "qstack.push", "qstack.pop", "qstack.stop_restore", "qstack.quiescent"],
     "rule": "case = one generated quantum function (statement AST) run in one of four recording modes; distinct = AST + mode; non-trivial = "
             "the program has a nested context or stop_recording block AND a wrapper/apply that de-queues or re-queues something",
@@ -898,7 +903,7 @@ def run(ctx):
         ambient(ctx, qp, qstack, rng0)
     except Exception as e:  # noqa: BLE001
         ctx.inconclusive_case(f"ambient workload failed: {type(e).__name__}: {e}")
-    N = ctx.n(3200, 320000)
+    N = ctx.n(9600, 320000)
     base = ctx.shard * N
     for j in range(N):
         # programs cost ~4 ms each: the first half of the plan always runs (a loaded machine must not turn the soft budget
